@@ -55,10 +55,10 @@ def _payload(x):
     return {'l': [_i(v) for v in list.__iter__(x)]}
 
 
-def _views(p, inst, log, ret, err, universe, check, kind):
+def _views(p, inst, log, ret, err, universe, check, kind, chg=True):
     obs = {'list': [_i(v) for v in list.__iter__(p.objects)], 'items': [[k, _i(v)] for k, v in p.objects.items()],
            'names': [[k, _i(v)] for k, v in p.names.items()], 'range': [[k, _i(v)] for k, v in p.get_range().items()],
-           'ret': ret, 'err': err, 'notifs': [list(x) for x in log], 'accepts': []}
+           'ret': ret, 'err': err, 'notifs': [list(x) for x in log], 'accepts': [], 'chg': chg}
     if check:
         acc = []
         for v in universe:
@@ -83,12 +83,31 @@ def run_impl(case):
         cls = type('S', (param.Parameterized,), {'s': P(objects=objs, check_on_set=decl['check_on_set'])})
         inst = cls()
         p = inst.param.s
-        log = []
-        inst.param.watch(lambda e: log.append((_payload(e.old), _payload(e.new))), 's', what='objects', onlychanged=False)
+        log, raw, nchanged = [], [], [0]
+
+        def on_any(e):
+            log.append((_payload(e.old), _payload(e.new)))
+            raw.append((e.old, e.new))
+        inst.param.watch(on_any, 's', what='objects', onlychanged=False)
+        # the default kind of watcher: only told about changes (Comparator.is_equal on the old and new payload)
+        inst.param.watch(lambda e: nchanged.__setitem__(0, nchanged[0] + 1), 's', what='objects')
+
+        def chg_ok():
+            """one call of the changes-only watcher per notification whose payload differs in Python's sense"""
+            def same(a, b):
+                if type(a) is not type(b):
+                    return False
+                if isinstance(a, list):
+                    return list.__eq__(a, b) is True
+                return a == b
+            want = sum(0 if same(a, b) else 1 for a, b in raw)
+            return nchanged[0] == want
         check, U = decl['check_on_set'], case['universe']
         out = {'init': _views(p, inst, log, None, None, U, check, kind), 'steps': []}
         for op in case['ops']:
             del log[:]
+            del raw[:]
+            nchanged[0] = 0
             ret = err = None
             o = op['op']
             try:
@@ -142,7 +161,8 @@ def run_impl(case):
                 ret = _i(ret)        # a popped None object is the model's 0
             elif ret is not None:
                 return {'crash': f'{o} returned {ret!r}'}
-            out['steps'].append(_views(p, inst, list(log), ret, err, U, check, kind))
+            ok = chg_ok()           # before the probe assignments of _views
+            out['steps'].append(_views(p, inst, list(log), ret, err, U, check, kind, chg=ok))
         return out
     except Exception as e:  # the views themselves blew up: report, do not hide
         return {'crash': f'{type(e).__name__}: {e}'[:300]}
@@ -314,25 +334,16 @@ def cases(rng, tier, worker, nworkers):
 
 
 def compare(impl, model):
-    """The model has no notion of object identity: its objects are compared with `==`.  Once a history has put
-    two equal objects into the Selector (outside "unique objects"), `pop`/`remove` distinguish them by identity
-    in the library and the model cannot follow; the steps after the one that created the duplicate are not
-    compared (the property does not speak about them either)."""
+    """The model has no notion of object identity: its objects are compared with `==`, while the library's
+    `pop`/`remove` pick the name to drop with `is`.  The two agree as long as every operation was style-consistent
+    and put in only objects not equal to one already there (`Op.ok`, the property's own domain).  After the first
+    operation outside it, equal objects handed over later are different Python objects and the model cannot follow:
+    the driver says how many steps are comparable (up to and including that operation); the rest is not compared."""
     from ..run import first_diff
     if not (isinstance(impl, dict) and isinstance(model, dict) and 'steps' in impl and 'steps' in model):
         return first_diff(impl, model)
-    def dup(obs):
-        l = obs.get('list', [])
-        return len(set(l)) != len(l)
-    k = len(model['steps'])
-    if dup(model.get('init', {})) or dup(impl.get('init', {})):
-        k = 0
-    else:
-        for j, (a, b) in enumerate(zip(model['steps'], impl['steps'])):
-            if dup(a) or dup(b):
-                k = j + 1
-                break
-    cut = lambda o: dict(o, steps=o['steps'][:k])
+    k = model.get('comparable', len(model['steps']))
+    cut = lambda o: {'init': o.get('init'), 'steps': o['steps'][:k]}
     return first_diff(cut(impl), cut(model))
 
 
